@@ -254,3 +254,4 @@ uint64_t X_strtol(uint8_t* s, uint8_t* endp, uint32_t base) {
 }
 uint32_t X_atoi(uint8_t* s) { return (uint32_t)X_strtol(s, 0, 10); }
 void vp_rt_init(void) { }
+
